@@ -198,8 +198,8 @@ def run(facts, rep, tier):
                              "B": "share component or protocol result forwarded as is (reveal steps) - informational, not a verdict"}
     rep.analysed["send_sites_classified"] = n
     for f_, why in REQUIRE_MASK.items():
-        rep.ob("C03.M", "anchor:%s" % f_, any(k.startswith(f_) or any(k.startswith(h_) for h_ in helper_of.get(f_, [])) for k in table),
-               "masking protocol %s has Send sites (its own or in helpers only it calls: %s)" % (f_, helper_of.get(f_, [])))
+        rep.anchor("C03.M", "%s|Send sites of the masking protocol (its own or in helpers only it calls)" % f_,
+                   any(k.startswith(f_) or any(k.startswith(h_) for h_ in helper_of.get(f_, [])) for k in table))
     fam_ = list(REQUIRE_MASK) + [h_ for hs in helper_of.values() for h_ in hs]
     rep.floor("C03.M", "messages of the named masking protocols", sum(1 for k in table if any(k.startswith(f_) for f_ in fam_)), 8)
 
